@@ -347,7 +347,7 @@ pub fn replay(a: &Args, path: &Path, rep: &mut Report) -> i32 {
         return if rep.violations.is_empty() { 0 } else { 1 };
     };
     let case = Case::from_json(cj);
-    println!("replaying {} on case {} (n={}, dim={}, periodic={})", a.id, case.origin, case.n(), case.dim, case.periodic);
+    println!("replaying {} on case {} (n={}, dim={}, periodic={}, input hash {:016x})", a.id, case.origin, case.n(), case.dim, case.periodic, case.hash());
     in_pool(|| run_one(&a.id, &case, rep));
     let n = rep.violations.len();
     for (k, v) in &rep.counters {
